@@ -185,28 +185,37 @@ def check(ctx):
             else:
                 ctx.holds('R2.zero_target_never_stops', where, 'target = 0: decision is `continue` '
                           'for every class of the relative error (NaN, 0, finite, inf)')
-            # R3: positive target: continue iff rel > target (for non-NaN rel)
+            # R3: positive target: continue iff rel > target.  Decided over the classes of the combined
+            # error and value (rel = err/|val| is evaluated from them): wherever `rel > target` is
+            # definite the decision must be the same; wherever it depends on magnitudes the decision
+            # must depend on them too.  NaN relative errors with a positive target are left open.
             bad = []
-            for crel in (fp.NINF, fp.NEG, fp.ZERO, fp.POS, fp.PINF):
-                env = fp.Env({target: fp.POS, rel: crel})
-                b = fp.evb(ret, env)
-                want = fp.evb(('>', rel, target), env)
-                if b.tainted:
-                    raise AnalysisBroken('decision depends on a value without declared class: %s' % b.why)
-                if b.cls != want.cls:
-                    bad.append('rel=%s: decision %s, rel > target is %s' % (fp.NAMES[crel], fp.showb(b.cls),
-                                                                           fp.showb(want.cls)))
-            # inside one class the comparison itself decides: assume it either way
-            for truth in (True, False):
-                env = fp.refine(('>', rel, target), fp.Env({target: fp.POS, rel: fp.FINITE | fp.PINF | fp.NINF}),
-                                truth)
-                env.vals[target] = fp.POS
-                b = fp.evb(ret, env)
-                if b.tainted:
-                    raise AnalysisBroken('decision depends on a value without declared class: %s' % b.why)
-                if b.cls != (fp.BT if truth else fp.BF):
-                    bad.append('assuming rel > target is %s the decision is %s'
-                               % (truth, fp.showb(b.cls)))
+            for cerr in (fp.ZERO, fp.POS, fp.PINF):
+                for cval in (fp.NINF, fp.NEG, fp.ZERO, fp.POS, fp.PINF):
+                    env = fp.Env({target: fp.POS, err: cerr, val: cval})
+                    want = fp.evb(('>', rel, target), env)
+                    relc = fp.ev(rel, env)
+                    if relc.cls & fp.NAN:
+                        continue
+                    b = fp.evb(ret, env)
+                    if b.tainted or want.tainted:
+                        raise AnalysisBroken('decision depends on a value without declared class: %s' % (b.why or want.why))
+                    if b.cls != want.cls:
+                        bad.append('error %s, value %s (relative error %s): decision %s but `rel > target` is %s'
+                                   % (fp.NAMES[cerr], fp.NAMES[cval], fp.show(relc.cls), fp.showb(b.cls), fp.showb(want.cls)))
+            # inside one class the comparison itself decides: if the decision is written in terms of the
+            # relative error, assuming the comparison either way must fix the decision
+            if T.occurs(ret, rel):
+                for truth in (True, False):
+                    env = fp.refine(('>', rel, target), fp.Env({target: fp.POS, rel: fp.FINITE | fp.PINF | fp.NINF}),
+                                    truth)
+                    env.vals[target] = fp.POS
+                    b = fp.evb(ret, env)
+                    if b.tainted:
+                        raise AnalysisBroken('decision depends on a value without declared class: %s' % b.why)
+                    if b.cls != (fp.BT if truth else fp.BF):
+                        bad.append('assuming rel > target is %s the decision is %s'
+                                   % (truth, fp.showb(b.cls)))
             if bad:
                 ctx.violation('R3.positive_target', where, 'with a positive target the run does not '
                               'stop exactly when rel <= target: ' + bad[0], {'all': bad})
